@@ -190,8 +190,10 @@ func genGuided(rng *hlib.Rand, d *cdrv.Driver, c *stdCodec, input []byte) []site
 		case strings.HasPrefix(pick, "rf"):
 			call(pick)
 			// a restart is followed by repositioning the source (sometimes to the wrong place: `#bad restart`)
-			if rng.Chance(5, 6) {
-				add("seek:" + strings.SplitN(pick, ":", 3)[2])
+			if pos := strings.SplitN(pick, ":", 3)[2]; rng.Chance(5, 6) {
+				if n, err := strconv.Atoi(pos); err != nil || n <= len(input) {
+					add("seek:" + pos)
+				}
 			}
 			feed()
 			last = ""
